@@ -420,6 +420,37 @@ func (f *Flow) mutateAtt(msg []byte, honestIdx []int) ([]byte, string) {
 		out := append([]byte(nil), att...)
 		out[g.r.Intn(len(out))] ^= 0x40
 		return out, "att-bitflip"
+	case 17, 18:
+		// the mirror key n-d of an enabled attester (same X coordinate, other Y, another address, not enabled),
+		// replacing a signer (17) or added next to it (18)
+		i := g.r.Intn(n)
+		mk, err := crypto.ToECDSA(pad32(new(big.Int).Sub(secpN, f.keys[honestIdx[i]].D).Bytes()))
+		if err == nil {
+			ks := []*ecdsa.PrivateKey{}
+			for j, ix := range honestIdx {
+				if j == i && k == 17 {
+					ks = append(ks, mk)
+				} else {
+					ks = append(ks, f.keys[ix])
+				}
+			}
+			name := "att-mirror-key-replaces-signer"
+			if k == 18 && n >= 2 {
+				// drop another signer, add the mirror key: still threshold-many signatures
+				drop := (i + 1) % n
+				ks = append(ks[:drop], ks[drop+1:]...)
+				ks = append(ks, mk)
+				name = "att-mirror-key-next-to-signer"
+			} else if k == 18 {
+				ks[0] = mk
+			}
+			sortKeys(ks)
+			var out []byte
+			for _, kk := range ks {
+				out = append(out, sign(kk, msg, g.r.Chance(1, 3))...)
+			}
+			return out, name
+		}
 	}
 	return att, ""
 }
@@ -556,6 +587,16 @@ func (f *Flow) Receive(usePool bool) {
 	case 10:
 		from = upper(from)
 		mut = "rcv-from-uppercase"
+	case 11:
+		if module {
+			sender = types.PaddedModuleAddress
+			mut = "rcv-sender-is-module"
+		}
+	case 12:
+		if module {
+			sender = pad32(mustAcc(from))
+			mut = "rcv-sender-is-submitter"
+		}
 	}
 	msg := encMsg(version, src, dst, nonce, sender, recipient, caller, body)
 	switch g.r.Intn(40) {
